@@ -52,10 +52,15 @@ class World:
             self.net.servers[(n["ip"], n["port"])] = srv
             self.nodes[i] = srv
         self.calls = 0
+        self.blank_ip = seed % 3 == 0
         self.rnd = random.Random(seed)
 
     def payload(self):
-        return ("%d\n" % (len(self.adv) + 1) + " ".join("%(fqdn)s|%(ip)s|%(port)d" % n for n in self.adv) + "\n").encode()
+        def entry(i, n):
+            # without VPC addressing the IP field is not used; ElastiCache may leave it empty ("fqdn||port")
+            ip = "" if (not self.vpc and self.blank_ip and i % 2 == 0) else n["ip"]
+            return "%s|%s|%d" % (n["fqdn"], ip, n["port"])
+        return ("%d\n" % (len(self.adv) + 1) + " ".join(entry(i, n) for i, n in enumerate(self.adv)) + "\n").encode()
 
     def seg_for(self, kind):
         body = b"CONFIG cluster 0 %d\r\n" % len(self.payload()) + self.payload() + b"\r\nEND\r\n"
